@@ -16,4 +16,12 @@ if [ -f harness/cl/Cargo.toml ]; then
   ( cd harness/cl && CONFIG_SITE=$V/tools/gmp.site M4=true CARGO_FEATURE_C_NO_TESTS=1 \
     GMP_MPFR_SYS_CACHE=$V/.cache/gmp cargo build --offline --profile release ) 2>&1 | tail -3
 fi
+
+# sanitizer builds used by the thorough tiers of C07-C10 (nightly; failure here is not fatal: the layer
+# then reports itself inconclusive and the monitors stand alone)
+( cd harness/bbs && RUSTFLAGS="-Zsanitizer=address -Cforce-frame-pointers=yes" CARGO_TARGET_DIR=$V/target/asan \
+  cargo +nightly build --offline --release --target x86_64-unknown-linux-gnu ) > logs/setup-asan.log 2>&1 || echo "asan build failed (non-fatal)"
+( cd harness/bbs && RUSTFLAGS="-Zsanitizer=thread" CARGO_TARGET_DIR=$V/target/tsan \
+  cargo +nightly build --offline --release -Zbuild-std --target x86_64-unknown-linux-gnu ) > logs/setup-tsan.log 2>&1 || echo "tsan build failed (non-fatal)"
+echo sanitizer builds done
 echo setup done
